@@ -79,6 +79,15 @@ TEXT = {
   note='Trusted: Coq kernel; the scripted transport and the election-timeout hook; Go scheduler delivering each released answer to the loop before the next one (1.5 ms apart).',
   technique='Coq proof (invariant over candidate sessions) + differential correspondence of the real candidate loop with scripted peers + monitored real-timer clusters',
  ),
+ 'C16': dict(
+  level='Machine-checked theorems (Coq) over the model of netPipeline (inprogressCh FIFO + single decoder, in-band handler errors, connection kill) for ANY script of sends, answers, handler errors and kills at any depth: '
+        'a future that carries a response carries the response to its own request; responses arrive in send order; nothing sent before or after a connection failure receives a response once the connection died; '
+        'and, for any codec whose decoder reads exactly one encoded message off the front of a stream, frames written back to back are read back whole and in order. '
+        'Tie: scripts (exhaustive up to a bound + random deep ones) on a real NetworkTransport AppendEntriesPipeline diffed against the model. PARTIAL: field fidelity of the msgpack codec itself (every field of every RPC kind, streamed snapshot bodies), '
+        'pooled-connection reuse after errors and timeouts are not modelled (third-party codec, goroutines, deadlines); they are checked by generated-value monitors (field-by-field comparison both directions, no-stale-response scenarios), not proved.',
+  note='Trusted: Coq kernel; the in-memory stream layer of the harness (net.Pipe) in place of TCP; the measured codec conflations treated as equal are exactly nil~empty byte slices and Entries, times compared by instant.',
+  technique='Coq proof (FIFO pairing invariant; framing over an abstract prefix codec) + differential pipeline scripts on the real transport + generated-value fidelity monitors',
+ ),
  'C13': dict(
   level='Machine-checked theorems (Coq) over the model of checkLeaderLease and the lease timer arithmetic, for ANY configuration and contact times: the check steps down exactly when fewer than quorumSize voters '
         '(leader included, non-voters never counted) were heard within the lease; once too few voters answer after t0, every check after t0+lease steps down; checks are between 10 ms and one lease apart, so step-down happens within '
